@@ -366,6 +366,13 @@ pub fn check_c08(c: &TV, acc: &mut Acc, record: bool) -> Verdict {
         }
         None => match vcat::encode(&c.ty, &c.val).0 {
             Ok(b) => b,
+            // characters outside the 16-bit range have no encoding (C17): nothing to truncate
+            Err(e) if e.kind == "UnsupportedCharacter" => {
+                if record {
+                    acc.exclude("value with a character the format cannot hold (no encoding to truncate)");
+                }
+                return Verdict::Skip;
+            }
             Err(e) => return Verdict::Fail(format!("encoding failed: {e:?}")),
         },
     };
@@ -500,7 +507,7 @@ fn long_seq_strategy() -> BoxedStrategy<TV> {
 pub fn run_c08(cx: &Cx) -> PropResult {
     let per_shard = cx.n(1_500, 60_000);
     let acc = parallel(cx, &|shard, acc| {
-        let cfg = ValCfg { max_len: 6, long: shard % 4 == 0, ..ValCfg::default() };
+        let cfg = ValCfg { max_len: 6, long: shard % 4 == 0, non_bmp: shard % 2 == 1, ..ValCfg::default() };
         let strat = tv_strategy(3, cfg);
         if drive(crate::run::tag_seed(derive_seed(cx.seed, cx.prop, shard as u64, 0), 0), &strat, per_shard, acc, &|c: &TV| to_json(c), &mut |c, a, r| check_c08(c, a, r)) {
             return;
